@@ -283,6 +283,36 @@ def run(P, C, tier):
                         ok = False
             C.ob("R6", "ro:" + owner, ok, cb.loc(bi), "connection opened outside the writer is set query_only=1 before any use")
     C.floor("R6", "create_connection call sites", len(sites), 2)
+    # ---- R9: a journal that can roll back
+    C.rule("R9", "every connection is opened with a journal that can roll a transaction back (journal_mode WAL/DELETE/TRUNCATE/PERSIST set with `?` on every path to Ok, before any table is created)")
+    try:
+        cc = P.body("sqlite_database::create_connection")
+        C.saw(cc)
+        jm = []
+        for qi, qt in cc.calls_to(r"sqlite_database::set_pragma$"):
+            a = [mir.strip_refs(x) for x in cc.call_args(qi)]
+            if a[0][:2] == ("const", "journal_mode"):
+                jm.append((qi, a[1]))
+        C.floor("R9", "journal_mode pragma", len(jm), 1)
+        oks = mir.return_assignments(cc)["Ok"]
+        for qi, val in jm:
+            mode = val[1].upper() if val[0] == "const" and isinstance(val[1], str) else None
+            C.ob("R9", "journal-mode-can-roll-back", mode in ("WAL", "DELETE", "TRUNCATE", "PERSIST"), cc.loc(qi),
+                 "journal_mode=%s (OFF and MEMORY lose atomicity when the process dies inside a transaction)" % (mode or mir.term_str(val)))
+            re_ = mir.result_edges(cc, qi)
+            okb = re_["ok"] if re_ and re_["via"] == "?" else None
+            C.ob("R9", "journal-mode-on-every-path", okb is not None and bool(oks) and all(cc.dominates(okb, o) for o in oks), cc.loc(qi),
+                 "the pragma succeeded (`?`) on every path that returns the connection")
+            prep = cc.calls_to(r"sqlite_database::prepare_connection$")
+            C.ob("R9", "journal-mode-before-schema", bool(prep) and okb is not None and all(cc.dominates(okb, p) for p, _ in prep), cc.loc(qi),
+                 "set before prepare_connection creates the tables")
+        others = [x for x in P.call_sites(r"rusqlite::Connection::open(_with_flags|_in_memory)?$") if not x[0].file.endswith("_test.rs")]
+        for cb, bi, t in others:
+            owner = mir.short(P.owner_fn(cb.id))
+            C.ob("R9", "opened-by:" + owner, owner == "sqlite_database::create_connection", cb.loc(bi), "SQLite connections are opened only by create_connection")
+        C.floor("R9", "Connection::open sites", len(others), 1)
+    except mir.MissingAnchor as e:
+        C.anchor_missing("R9", "create_connection", e)
 
 
 def arms_of(body, adt):
